@@ -457,7 +457,7 @@ pub fn run(seed: u64, tier: &str, out: &Path, extra: &[(String, String)]) -> std
     let mut scale: f64 = 1.0;
     for (k, v) in extra { if k == "scale" { scale = v.parse().unwrap_or(1.0); } }
     fixed_cases(&mut run);
-    let ncases = ((if run.thorough() { 6500.0 } else { 650.0 }) * scale) as usize;
+    let ncases = ((if run.thorough() { 12000.0 } else { 1200.0 }) * scale) as usize;
     for i in 0..ncases {
         let mut r = rng.fork(i as u64);
         let mode = match r.below(10) { 0..=2 => 0, 3..=5 => 1, 6..=7 => 2, _ => 3 };
